@@ -264,6 +264,9 @@ def build_prog(name, sources, lib=None, cc=None, extra=(), link=(), objs=(), cxx
     inc = ["-I" + os.path.join(VERIF, "harness"), "-I" + os.path.join(VERIF, "ref")]
     if lib:
         inc += lib["inc"] if cfg_dep else lib["inc"][:2] + ["-I" + config_dir(cfg_dir(), DEFAULT_TRIPLE)]
+    if lib and cfg_dep:
+        # harnesses that include internal headers must see the library's configuration macros
+        extra = list(extra) + [f for f in lib["cflags"] if f.startswith("-D")]
     objroot = os.path.join(BUILD, "hobj")
     os.makedirs(objroot, exist_ok=True)
     jobs = []
